@@ -28,11 +28,13 @@ TEXT = {
          'Bounded as C01: slots 4/4, depth <= 2, set/multiset over 8-bit keys; element types with non-trivial lifetimes not covered.'),
  'C05': ('the property statement as contract of every entry point and algorithm variant: returns target+size, inputs advanced by size in total and within range, output ordered (stable: ties in (sequence, position) order), output == exactly the taken elements, nothing smaller left behind; tagged elements and ghost indices',
          'Bounded: k <= 5 sequences of length <= 2 (3 for k <= 2). Assert-mode enforcement.'),
+ 'C19': ('hexdump / hexdump_lc / parse_hexdump and base64_encode / decode against RFC 4648 and their round trips; to_lower / to_upper (all 256 characters), starts/ends_with (+icase), contains, compare_icase, trim family with a drop set, levenshtein (+icase) against transcriptions of their documented definitions',
+         'Bounded: strings <= 6 bytes (base64: one job per length 0..6; levenshtein <= 3x3). NOT under contract: split / join / split_quoted / join_quoted, replace_*, erase_all, pad, lax base64 decoding. Assert-mode enforcement; std::string heap path stubbed as must-not-be-reached.'),
  'C09': ('tournament invariant (replayed bottom-up from the stored losers) established by construction and preserved by delete_min_insert from every well-formed state, for all 8 classes; the invariant implies the winner property (lemma job)',
          'Bounded configuration k <= 8 players; histories unbounded by induction. Unguarded variants under their documented precondition.'),
 }
 # properties whose checks have been run to completion on the unchanged tree (exit 0); extend as checks are validated
-CLAIMED = ['C09', 'C11', 'C12', 'C13', 'C14', 'C15', 'C16', 'C18', 'C20']
+CLAIMED = ['C09', 'C11', 'C12', 'C13', 'C14', 'C15', 'C16', 'C17', 'C18', 'C19', 'C20']
 
 def main():
     props = [json.loads(l) for l in open(os.path.join(here, 'properties.jsonl'))]
